@@ -86,6 +86,8 @@ func runC01(p *Prog, r *Result) {
 	}
 	r.Rule("R01e", "tree text reaches the tabwriter only through the escaping writer, and every escaping decision covers \\t, \\v and \\f", 8)
 	checkTabwriterEscaping(p, r, si.pkg, si, "R01e")
+	r.Rule("R01f", "in arithmetic, between the text of an operator and the operand printed after it a space is written or a predicate over that operand is consulted: signs are not fused into another operator", 3)
+	checkArithmOperatorsKeptApart(p, r, "R01f")
 	pkg := si.pkg
 	info := pkg.TypesInfo
 	g := buildRefGraph(p)
@@ -471,6 +473,8 @@ func inDefaultOfRootSwitch(g *FGraph, b *FBlock) bool {
 }
 
 var c01Controls = []Control{
+	{Name: "compact-binary-glues-its-signs", Rule: "R01f", WantKey: "arithmExprRecurse#operator", File: "syntax/printer.go",
+		Mutate: ctlReplaceAnywhere("\t\t\tif signsWouldJoin(expr.Op.String(), expr.Y) {\n\t\t\t\tp.space() // \"a - -b\" must not become \"a--b\"\n\t\t\t}\n", "")},
 	{Name: "escape-only-tabs", Rule: "R01e", WantKey: "writeLit#escape decision", File: "syntax/printer.go",
 		Mutate: ctlReplaceAnywhere(`const tabwriterSpecial = "\t\v\f"`, `const tabwriterSpecial = "\t"`)},
 	{Name: "function-name-written-raw", Rule: "R01e", WantKey: "spacedString, which writes it raw", File: "syntax/printer.go",
